@@ -133,6 +133,10 @@ def run_case(case):
         else:
             fn(text)
     except Exception as e:
+        if isinstance(e, TypeError) and report.exc_site(e).endswith("@?"):
+            # the call itself was refused (no clikit frame ran): a method found by its name that does not take
+            # (text[, flags]) is not a text-writing entry point - nothing to judge
+            return None
         return report.viol("crash:" + report.exc_site(e), "%s.%s raised %r" % (kind, meth, e), case)
     after = [s.fetch() for s in streams]
     wrote = after != before
